@@ -583,7 +583,7 @@ def fam_overflow(rnd, i, extra=(6,)):
     return steps
 
 
-def fam_ovfstall(rnd, i):
+def fam_ovfstall(rnd, i, mode=None):
     """Overflow, then the consumer drains Events only and never looks at Errors while control calls are made."""
     w = "w1"
     k = 16384 + rnd.choice([6, 50])
@@ -598,7 +598,7 @@ def fam_ovfstall(rnd, i):
             steps.append(call(w, "add", ("d1", "n1"), "rel"))
         else:
             steps.append(call(w, "remove", ("d1",), "rel"))
-    if rnd.random() < 0.5:
+    if mode == "close" or (mode is None and rnd.random() < 0.5):
         steps += [call(w, "close"), drain(w), obs(w)]
     else:
         steps += [drain(w), call(w, "watchlist"), obs(w), call(w, "close"), drain(w), obs(w)]
@@ -612,7 +612,7 @@ def fam_ovflate(rnd, i):
     k = 16384 + rnd.choice([6, 300, 2000])
     steps = [fs("mkdir", ("d1",)), fs("create", ("d1", "n1")), new(w, 0), call(w, "add", ("d1",), "rel"),
              fs("chmod", ("d1", "n1")), {"s": "rep", "k": k, "pat": [fs("chmod", ("d1", "n1")), fs("write", ("d1", "n1"))]}, obs(w)]
-    steps.append({"s": "drain", "w": w, "only": "ev", "max": rnd.choice([3, 40, 2500])})
+    steps.append({"s": "drain", "w": w, "only": "ev", "max": rnd.choice([300, 2500, 2500, 5000])})
     steps += [obs(w), fs("chmod", ("d1",)), fs("create", ("d1", "late1")), fs("create", ("d1", "late2")), fs("unlink", ("d1", "late1")),
               drain(w), call(w, "watchlist"), obs(w), fs("create", ("d1", "n2")), call(w, "add", ("d1", "n2"), "rel"), fs("chmod", ("d1", "n2")),
               call(w, "remove", ("d1", "n2"), "rel"), drain(w), obs(w), call(w, "close"), drain(w), obs(w)]
@@ -970,6 +970,8 @@ def main():
             kw["ks"] = tuple(int(x) for x in params["ks"].split("+"))
         if a.fam == "rand" and "maxops" in params:
             kw["maxops"] = int(params["maxops"])
+        if a.fam == "ovfstall" and "mode" in params:
+            kw["mode"] = params["mode"]
         if a.fam == "moves" and "depth" in params:
             kw["depth"] = int(params["depth"])
         emit(idx, fn(rnd, idx, **kw))
